@@ -45,6 +45,8 @@ ANCHORS = [
 TIMEOUT = 1500.0
 UNFIREABLE_PATH = os.path.join(os.path.dirname(os.path.abspath(__file__)), "c05_unfireable.json")
 SET_HOST_CAP = 260
+# conditions that name a mechanism of the rewriter itself (not of one template)
+GLOBAL_CONDS = ("overridable-initializer", "new-initializer-name-exists")
 
 
 def thresholds(tier):
@@ -515,7 +517,8 @@ def run_case(spec):
             v = r.get("viol")
             if v:
                 kind, cond, what = v
-                cond = cond or st["cond"]
+                if cond is None:
+                    cond = st["cond"] if st["cond"] in GLOBAL_CONDS else f"{tid}:{st['cond']}"
                 key = f"rule={name};kind={kind};cond={cond}"
                 if kind == "raises":
                     key = "raises;" + key
